@@ -105,7 +105,9 @@ EXT_BOUNDS = "chain shape fixed per harness (O(n)=optional with n data bytes, M(
 
 def ext_sender_members(cost=60):
     hs = [H(f"c13::sender_{s}", bounds=EXT_BOUNDS, unwind=10, cost=cost, timeout=900, mem_gb=8) for s in EXT_SHAPES_Q]
-    hs += [H(f"c13::sender_{s}", tier="thorough", bounds=EXT_BOUNDS, unwind=10, cost=cost, timeout=1800, mem_gb=8) for s in EXT_SHAPES_T]
+    # 4-entry chains at the thorough sizes need > 8 GB (5 M SAT variables): optional deepening
+    hs += [H(f"c13::sender_{s}", tier="thorough", bounds=EXT_BOUNDS, unwind=10, cost=cost, timeout=(3000 if s.count("_") >= 3 else 1800),
+             mem_gb=(24 if s.count("_") >= 3 else 8), required=(s.count("_") < 3)) for s in EXT_SHAPES_T]
     hs += [H("c13::sender_empty_list", bounds="empty extension list; PDU <= 6, buffer <= 48", unwind=8, cost=5)]
     return hs
 
